@@ -138,7 +138,7 @@ func (lex *Lexer) readToken() []*token.Token {
 		// silently rewrote the one-symbol form into the two-symbol form --
 		// the formatter changing the program it was asked to tidy.  Found by
 		// FuzzFormatCompact on "(------ )".
-		if c, ok := lex.scanner.Peek(); !ok || unicode.IsSpace(c) || c == ')' || c == ']' {
+		if c, ok := lex.scanner.Peek(); !ok || unicode.IsSpace(c) || strings.ContainsRune(")]([;\"'#", c) {
 			return lex.emitText(token.SYMBOL)
 		}
 		return lex.emitText(token.NEGATIVE)
